@@ -67,11 +67,13 @@ type NodeService interface {
 
 type BaseNodeService struct {
 	sync.Mutex
-	ctx                      context.Context
-	userName                 string
-	pubKey                   ed25519.PublicKey
-	stateMu                  sync.RWMutex
-	state                    state.State
+	ctx      context.Context
+	userName string
+	pubKey   ed25519.PublicKey
+	stateMu  sync.RWMutex
+	state    state.State
+	// serializes the answers to operations: lookup, post and retirement of one answer are not interleaved with another
+	operationMu              sync.Mutex
 	storage                  storage.Storage
 	keyStore                 keystore.KeyStore
 	Logger                   logger.Logger
@@ -250,6 +252,10 @@ func (s *BaseNodeService) ProcessOperation(dto *dto.OperationDTO) error {
 }
 
 func (s *BaseNodeService) executeOperation(operation *types.Operation) error {
+	// two submissions of the same answer must not both find the operation pending and both post it
+	s.operationMu.Lock()
+	defer s.operationMu.Unlock()
+
 	if operation.Event.IsEmpty() {
 		return errors.New("operation is request operation, provide result operation instead")
 	}
